@@ -12,6 +12,7 @@ import sys
 import time
 
 VERIF = os.path.dirname(os.path.dirname(os.path.abspath(__file__)))
+OUT = os.environ.get('SIM_OUT', VERIF)  # development runs against mutants write elsewhere
 REPO = os.environ.get('SIM_REPO', '/repo')
 if REPO not in sys.path:
     sys.path.insert(0, REPO)
@@ -121,7 +122,7 @@ def write_replay(prop, v, plan, extra):
            'minimisation': extra, 'plan': plan,
            'trace_tail': history_to_jsonable([e for e in res['history'] if e['k'] != 'wire'][-60:])}
     name = '%s-%s-%s.json' % (prop, v['class'].split('.', 1)[1], _plan_digest(plan))
-    path = os.path.join(VERIF, 'replays', name)
+    path = os.path.join(OUT, 'replays', name)
     os.makedirs(os.path.dirname(path), exist_ok=True)
     with open(path, 'w') as f:
         json.dump(doc, f, indent=1, sort_keys=True, default=repr)
@@ -217,8 +218,8 @@ def cmd_check(prop, tier, base_seed, workers, no_selftest=False, limit=None):
     cov_extra = spec.get('coverage_extra')
     if cov_extra:
         evidence['coverage'].update(cov_extra(agg))
-    os.makedirs(os.path.join(VERIF, 'evidence'), exist_ok=True)
-    with open(os.path.join(VERIF, 'evidence', prop + '.json'), 'w') as f:
+    os.makedirs(os.path.join(OUT, 'evidence'), exist_ok=True)
+    with open(os.path.join(OUT, 'evidence', prop + '.json'), 'w') as f:
         json.dump(evidence, f, indent=1, sort_keys=True, default=repr)
     print('%s tier=%s seed=%d runs=%d distinct=%d incomplete=%d wall=%.1fs faults=%s'
           % (prop, tier, base_seed, agg['runs'], len(agg['sigs']), agg['incomplete'], wall, dict(agg['faults'])))
